@@ -35,7 +35,28 @@ def main():
         elif a[i] == "--keep-worktree":
             keep = True
         i += 1
+    recheck = "--recheck" in a
     wt, sd = f"/tmp/wt-{pid}", f"/tmp/seed-{pid}"
+    if recheck:
+        # only re-run the checks against the stored patch (confirmation results are kept)
+        dst = os.path.join(VERIF, "seeded", name)
+        meta = json.load(open(os.path.join(dst, "meta.json")))
+        scratch = f"/tmp/v-seed-{name}"
+        rc, out = sh([os.path.join(VERIF, "lib", "scratch.sh"), f"seed-{name}"])
+        assert rc == 0, out
+        rc, out = sh(f"cd {scratch}/repo && patch -p1 < {dst}/patch.diff")
+        assert rc == 0, out
+        for c in checks:
+            t0 = time.time()
+            rc, out = sh([os.path.join(scratch, "check"), c, "--tier", tier], timeout=7200)
+            sigs = [l.strip()[len("signature: "):] for l in out.splitlines() if l.strip().startswith("signature:")]
+            prev = meta.get("checks", {}).get(c)
+            meta.setdefault("history", []).append({"check": c, "earlier_result": prev})
+            meta["checks"][c] = {"exit": rc, "caught": rc == 1 and "VIOLATION property=" in out, "signatures": sigs[:6], "wall_s": round(time.time() - t0, 1), "tier": tier, "rechecked_at": time.strftime("%Y-%m-%dT%H:%M:%SZ", time.gmtime())}
+            print(c, meta["checks"][c], flush=True)
+        json.dump(meta, open(os.path.join(dst, "meta.json"), "w"), indent=1)
+        shutil.rmtree(scratch, ignore_errors=True)
+        return
     meta = {"property": pid, "name": name, "ran_at": time.strftime("%Y-%m-%dT%H:%M:%SZ", time.gmtime()), "steps": {}}
     patch = os.path.join(sd, "patch.diff")
     assert os.path.exists(patch), patch
